@@ -11,6 +11,8 @@ pub mod c13;
 pub mod c14;
 pub mod c15;
 pub mod c16;
+pub mod c17;
+pub mod c18;
 pub mod c19;
 pub mod c20;
 pub mod common;
@@ -33,6 +35,8 @@ pub fn run(cfg: &Cfg, rep: &mut Report) -> bool {
     "C14" => c14::run(cfg, rep),
     "C15" => c15::run(cfg, rep),
     "C16" => c16::run(cfg, rep),
+    "C17" => c17::run(cfg, rep),
+    "C18" => c18::run(cfg, rep),
     "C19" => c19::run(cfg, rep),
     "C20" => c20::run(cfg, rep),
     "C04" => c04::run(cfg, rep),
